@@ -192,6 +192,11 @@ func (s *session) SignalSubscribe(pkt *mqttp.Subscribe) (mqttp.IFace, error) {
 				// retained by a pre-v5 publisher: no storage for the properties the writer adds
 				p.PropertiesDiscard()
 			}
+			if subsID > 0 && s.version >= mqttp.ProtocolV50 {
+				// [MQTT-3.3.4-3] sent as the result of this subscription: it carries its identifier
+				p.SetVersion(s.version)
+				_ = p.PropertySet(mqttp.PropertySubscriptionIdentifier, subsID)
+			}
 			p.SetRetain(true)
 			s.conn.Publish(s.id, p)
 		} else {
